@@ -1314,3 +1314,225 @@ func init() {
 		},
 	}
 }
+
+func init() {
+	props["C16"] = &propDef{
+		ID: "C16",
+		Anchored: []string{"AsFortran", "CalcStridesColMajor", "DataOrder", "HasSameOrder", "setDataOrder", "prepDataVV", "copyDenseIter", "handleFuncOpts", "StdEng).MatMul", "StdEng).MatVecMul", "StdEng).Outer", "StackDense", "tensor.Copy", "colMajor", "IsColMajor"},
+		Bounds: map[string]interface{}{"method": "the harnesses of C01-C13 are re-run with each operand (and reuse/incr destination) independently column-major; their oracles are written over logical coordinates, so 'same logical result as the row-major run' is the same assertion",
+			"operations": "element access, slicing (symbolic triples), transposition programs, frame/alias/copy, iterators, arithmetic/comparison/unary with option modes, reductions and arg-reductions, products, concat/stack/repeat, shape calculators, reshape (follows the tensor's own data order)",
+			"shapes": "rank 1-3 (rank 4 in thorough)", "serialisation": "covered by C14 where applicable"},
+		Instances: func(tier string, seed int64) []Instance {
+			var out []Instance
+			n := 0
+			// C01-style access
+			for _, sh := range [][]int{{3}, {2, 3}, {3, 1}, {1, 3}, {2, 1, 2}, {2, 2, 2}} {
+				for _, variant := range []string{"fraw", "fconv"} {
+					for _, lay := range []string{"C", "T", "S", "TS"} {
+						if (lay == "S" && sh[0] < 2) || (lay == "TS" && sh[len(sh)-1] < 2) || (lay == "T" && len(sh) < 2) {
+							continue
+						}
+						for _, h := range []string{"vhC01At", "vhC01SetAt"} {
+							n++
+							out = append(out, mkInst(h, map[string]interface{}{"dtype": []string{"float64", "int8", "complex128", "string", "int16"}[n%5], "shape": sh, "variant": variant, "layout": lay, "arity_delta": 0}, "dtype", "shape", "variant", "layout"))
+						}
+					}
+				}
+			}
+			// slicing / transposition / views / iterators with column-major sources
+			for _, k := range []string{"rn", "nr", "ri", "r", "i"} {
+				out = append(out, mkInst("vhC02Slice", map[string]interface{}{"dtype": "int", "shape": []int{3, 4}, "base": "F", "pre": []string{"", "T", "W"}[n%3], "kinds": k, "box": 2, "mat": n % 2, "splitstep": 0}, "shape", "base", "pre", "kinds"))
+				n++
+			}
+			for _, sh := range [][]int{{2, 3}, {2, 3, 2}} {
+				for _, prog := range []string{"T", "TU", "TX", "TM", "S", "R", "TT", "DX"} {
+					n++
+					out = append(out, mkInst("vhC03Prog", map[string]interface{}{"dtype": []string{"float64", "int8", "complex128"}[n%3], "shape": sh, "base": "F", "prog": prog, "storage": 1, "safeut": 1}, "dtype", "shape", "base", "prog"))
+				}
+			}
+			for _, w := range []string{"memset", "zero", "setat", "copy", "neg", "add", "addscalar"} {
+				for _, view := range []string{"slice", "T", "Tslice"} {
+					n++
+					dt := "float64"
+					out = append(out, mkInst("vhC04Frame", map[string]interface{}{"dtype": dt, "shape": []int{3, 4}, "base": "F", "view": view, "axis": n % 2, "write": w, "srclayout": []string{"C", "F", "T"}[n%3]}, "view", "write", "srclayout", "axis"))
+				}
+			}
+			for _, op := range []string{"clone", "materialize", "copy", "copyto", "safet", "apitranspose"} {
+				for _, lt := range []int{0, 1} {
+					if op == "copyto" && lt == 1 {
+						continue
+					}
+					out = append(out, mkInst("vhC04Copy", map[string]interface{}{"dtype": "float64", "shape": []int{2, 3}, "layout": "F", "lazyT": lt, "op": op}, "op", "lazyT"))
+				}
+			}
+			for _, sh := range [][]int{{3}, {2, 3}, {1, 3}, {3, 1}, {2, 2, 2}} {
+				for _, lt := range []int{0, 1} {
+					if lt == 1 && len(sh) < 2 {
+						continue
+					}
+					out = append(out, mkInst("vhC05Dense", map[string]interface{}{"shape": sh, "layout": "F", "prog": "nFR", "lazyT": lt}, "shape", "lazyT"))
+				}
+				out = append(out, mkInst("vhC05Mult", map[string]interface{}{"shape": sh, "la": "F", "lb": "C", "lc": ""}, "shape", "la", "lb"))
+				out = append(out, mkInst("vhC05Mult", map[string]interface{}{"shape": sh, "la": "C", "lb": "F", "lc": "T"}, "shape", "la", "lb", "lc"))
+			}
+			// elementwise families: every operand / destination independently column-major
+			fl := []string{"F", "C", "T", "S"}
+			for _, sh := range [][]int{{2, 3}, {3}, {2, 1, 2}} {
+				for _, op := range []string{"Add", "Sub", "Mul", "Div", "Mod", "Pow", "MinBetween", "MaxBetween"} {
+					for i, la := range fl {
+						for j, lb := range fl {
+							if la != "F" && lb != "F" {
+								continue
+							}
+							if !layoutOK(sh, la) || !layoutOK(sh, lb) {
+								continue
+							}
+							n++
+							if tier == "quick" && len(sh) != 2 && (i+j+n)%3 != 0 {
+								continue
+							}
+							dt := []string{"float64", "int", "int8", "complex128", "float32", "uint16"}[n%6]
+							if (op == "Mod" || op == "MinBetween" || op == "MaxBetween") && dt == "complex128" {
+								dt = "int32"
+							}
+							if op == "Pow" && dt != "float64" && dt != "float32" && dt != "complex128" {
+								dt = "float64"
+							}
+							for mi, mode := range []string{"", "unsafe", "reuse", "incr"} {
+								if mi > 0 && (tier == "quick" && (n+mi)%4 != 0) {
+									continue
+								}
+								if mode != "" && (op == "MinBetween" || op == "MaxBetween") {
+									continue
+								}
+								api := []string{"func", "method"}[n%2]
+								if op == "MinBetween" || op == "MaxBetween" {
+									api = "func"
+								}
+								out = append(out, mkInst("vhC06Bin", map[string]interface{}{"dtype": dt, "op": op, "form": "TT", "shape": sh, "la": la, "lb": lb, "api": api, "mode": mode, "ld": []string{"F", "C"}[(n+mi)%2]},
+									"dtype", "op", "shape", "la", "lb", "mode", "ld"))
+							}
+						}
+						if la == "F" {
+							for _, form := range []string{"TS", "ST"} {
+								n++
+								out = append(out, mkInst("vhC06Bin", map[string]interface{}{"dtype": []string{"float64", "int"}[n%2], "op": op, "form": form, "shape": sh, "la": "F", "lb": "C", "api": "func", "mode": "", "ld": "C"}, "dtype", "op", "form", "shape", "la"))
+							}
+						}
+					}
+				}
+				for oi, op := range cmpOps {
+					for _, la := range fl {
+						for _, lb := range fl {
+							if (la != "F" && lb != "F") || !layoutOK(sh, la) || !layoutOK(sh, lb) {
+								continue
+							}
+							n++
+							if tier == "quick" && (n+oi)%2 != 0 {
+								continue
+							}
+							v := []string{"bool", "same", "unsafe", "reuse-bool", "reuse-same"}[n%5]
+							out = append(out, mkInst("vhC11Cmp", map[string]interface{}{"dtype": []string{"float64", "int", "float32", "int8"}[n%4], "op": op, "form": "TT", "shape": sh, "la": la, "lb": lb, "api": []string{"func", "method"}[n%2], "variant": v, "ld": []string{"F", "C"}[n%2]},
+								"dtype", "op", "shape", "la", "lb", "variant", "ld"))
+						}
+					}
+				}
+				for _, op := range []string{"Neg", "Abs", "Square", "Sqrt", "Clamp", "Sign", "Exp", "Inv"} {
+					for mi, mode := range []string{"", "unsafe", "reuse", "incr"} {
+						n++
+						dt := []string{"float64", "float32"}[n%2]
+						out = append(out, mkInst("vhC12Unary", map[string]interface{}{"dtype": dt, "op": op, "shape": sh, "la": "F", "mode": mode, "ld": []string{"F", "C"}[(n+mi)%2]}, "dtype", "op", "shape", "la", "mode", "ld"))
+					}
+				}
+				out = append(out, mkInst("vhC12Apply", map[string]interface{}{"dtype": "float64", "shape": sh, "la": "F", "mode": "", "ld": "C"}, "shape", "la"))
+			}
+			// every comparison / arithmetic dispatcher x dtype with mixed data orders (iterator kernels)
+			for _, pr := range [][2]string{{"F", "C"}, {"C", "F"}} {
+				for _, dt := range ordDtypes {
+					for _, op := range cmpOps {
+						out = append(out, mkInst("vhC11Cmp", map[string]interface{}{"dtype": dt, "op": op, "form": "TT", "shape": []int{2, 3}, "la": pr[0], "lb": pr[1], "api": "func", "variant": "bool", "ld": "C"}, "dtype", "op", "la", "lb", "variant"))
+					}
+				}
+				for _, dt := range numDtypes {
+					for _, op := range []string{"Add", "Sub", "Mul", "Div"} {
+						out = append(out, mkInst("vhC06Bin", map[string]interface{}{"dtype": dt, "op": op, "form": "TT", "shape": []int{2, 3}, "la": pr[0], "lb": pr[1], "api": "func", "mode": "", "ld": "C"}, "dtype", "op", "la", "lb"))
+					}
+				}
+			}
+			// reductions
+			for _, sh := range [][]int{{3}, {2, 3}, {2, 3, 2}} {
+				r := len(sh)
+				for mask := 1; mask < (1 << uint(r)); mask++ {
+					var along []int
+					for i := 0; i < r; i++ {
+						if mask&(1<<uint(i)) != 0 {
+							along = append(along, i)
+						}
+					}
+					for _, op := range []string{"Sum", "Max", "Min"} {
+						n++
+						dt := []string{"int", "float64", "int8", "uint16"}[n%4]
+						in := mkInst("vhC08Reduce", map[string]interface{}{"dtype": dt, "op": op, "shape": sh, "along": along, "la": "F", "api": []string{"method", "func"}[n%2]}, "dtype", "op", "shape", "along", "la")
+						in.Ring = op == "Sum" && dt == "float64"
+						out = append(out, in)
+					}
+				}
+				for axis := -1; axis < r; axis++ {
+					for _, op := range []string{"Argmax", "Argmin"} {
+						n++
+						out = append(out, mkInst("vhC08Arg", map[string]interface{}{"dtype": []string{"int", "float64"}[n%2], "op": op, "shape": sh, "axis": axis, "la": "F", "api": "method"}, "dtype", "op", "shape", "axis", "la"))
+					}
+				}
+			}
+			// products (both column-major, and mixed)
+			for _, mm := range [][2][]int{{{2, 3}, {3, 2}}, {{2, 2}, {2, 2}}} {
+				for _, lays := range [][2]string{{"F", "F"}, {"F", "C"}, {"C", "F"}, {"F", "LT"}} {
+					for _, mode := range []string{"", "reuse", "incr"} {
+						n++
+						in := mkInst("vhC09", map[string]interface{}{"dtype": []string{"float64", "float32", "complex128"}[n%3], "routine": "MatMul", "sa": mm[0], "sb": mm[1], "la": lays[0], "lb": lays[1], "mode": mode, "api": "method"}, "dtype", "routine", "sa", "la", "lb", "mode")
+						in.Ring = true
+						out = append(out, in)
+						in2 := mkInst("vhC09", map[string]interface{}{"dtype": []string{"float64", "float32"}[n%2], "routine": "MatVecMul", "sa": mm[0], "sb": []int{mm[0][1]}, "la": lays[0], "lb": lays[1], "mode": mode, "api": "method"}, "dtype", "routine", "sa", "la", "lb", "mode")
+						in2.Ring = true
+						out = append(out, in2)
+					}
+				}
+			}
+			for _, la := range []string{"F", "C"} {
+				for _, lb := range []string{"F", "C"} {
+					if la == "C" && lb == "C" {
+						continue
+					}
+					in := mkInst("vhC09", map[string]interface{}{"dtype": "float64", "routine": "Outer", "sa": []int{2}, "sb": []int{3}, "la": la, "lb": lb, "mode": "", "api": "method"}, "routine", "la", "lb")
+					in.Ring = true
+					out = append(out, in)
+					in3 := mkInst("vhC09", map[string]interface{}{"dtype": "float64", "routine": "Inner", "sa": []int{3}, "sb": []int{3}, "la": la, "lb": lb, "mode": "", "api": "method"}, "routine", "la", "lb")
+					in3.Ring = true
+					out = append(out, in3)
+				}
+			}
+			// concat / stack / repeat
+			for _, lays := range []string{"F,F", "F,C", "C,F", "F,T"} {
+				for _, v := range []string{"concat", "func"} {
+					out = append(out, mkInst("vhC10Concat", map[string]interface{}{"dtype": "float64", "n": 2, "axis": n % 2, "variant": v, "layouts": lays, "shape0": []int{2, 3}, "shape1": []int{2, 3}}, "variant", "layouts", "axis"))
+					n++
+				}
+				out = append(out, mkInst("vhC10Stack", map[string]interface{}{"dtype": "float64", "n": 2, "axis": n % 3, "variant": "method", "layouts": lays, "shape0": []int{2, 3}, "shape1": []int{2, 3}}, "layouts", "axis"))
+			}
+			for axis := -1; axis < 2; axis++ {
+				out = append(out, mkInst("vhC10Repeat", map[string]interface{}{"dtype": "float64", "axis": axis, "nrep": 1, "maxcount": 2, "variant": "method", "layouts": "F", "shape0": []int{2, 3}}, "axis", "layouts"))
+			}
+			// shape algebra and reshape
+			for _, k := range []string{"nr", "rn", "ri"} {
+				out = append(out, mkInst("vhC13Slice", map[string]interface{}{"shape": []int{2, 5}, "kinds": k, "box": 2, "base": "F"}, "shape", "kinds", "base"))
+			}
+			for _, to := range [][]int{{3, 2}, {6}, {1, 6}, {2, 3}} {
+				out = append(out, mkInst("vhC13Reshape", map[string]interface{}{"shape": []int{2, 3}, "to": to, "layout": "F", "lazyT": 0, "thenT": 1, "pre": ""}, "to", "layout"))
+			}
+			for _, post := range []string{"", "T", "clone", "mat", "slice0"} {
+				out = append(out, mkInst("vhC13Meta", map[string]interface{}{"shape": []int{2, 3, 2}, "layout": "F", "post": post}, "layout", "post"))
+			}
+			return out
+		},
+	}
+}
